@@ -207,6 +207,8 @@ def _cases(tier, seed):
     # (a) fix + check with every rule enabled on every corpus file, plus the sampled universe
     for f in corpus:
         cases.append({"kind": "fix", "file": f, "cfg": "all_enabled"})
+    for g in range(200 if tier == "quick" else fixrun.N_GEN):
+        cases.append({"kind": "fix", "gen": g, "cfg": "all_enabled"})
     uni = fixrun.universe(tier, seed, 0, 0, full=True, gen=True)
     nfix = 2500 if tier == "quick" else 25000
     ncheck = 1500 if tier == "quick" else 12000
